@@ -4,6 +4,8 @@ Property theorems only; the model is in `Model/C17.lean`, the facts about the Go
 `Generated/C17.lean` (regenerated on every run).
 -/
 import NotationModel.Model.C17
+import NotationModel.Generated.SrcC17
+import NotationModel.Generated.SrcC17b
 set_option linter.unusedSimpArgs false
 set_option linter.unusedVariables false
 
@@ -24,18 +26,6 @@ theorem facts_wait_delay :
 theorem facts_both_streams_capped :
     Facts.stdoutLimit = some specCap ∧ Facts.stderrLimit = some specCap ∧
     Facts.maxPluginOutputSize = specCap := by decide
-
-/-- the checks `validate` must make -/
-def expectedChecks : List String :=
-  ["metadata.Name==\"\"", "metadata.Description==\"\"", "metadata.Version==\"\"",
-   "metadata.URL==\"\"", "len(metadata.Capabilities)==0",
-   "len(metadata.SupportedContractVersions)==0",
-   "!slices.Contains(metadata.SupportedContractVersions,plugin.ContractVersion)"]
-
-/-- `validate` makes exactly these checks (in any order: they are independent) -/
-theorem facts_validate_checks :
-    (expectedChecks.all (Facts.validateChecks.contains ·) &&
-     Facts.validateChecks.all (expectedChecks.contains ·)) = true := by decide
 
 /-- the error codes are distinct, none is empty (so an error object carrying one is never
 "incomplete"), and the generic code is among them -/
@@ -308,30 +298,14 @@ theorem metadata_ok_iff (m : Meta) :
     validateErr m = none ↔
       (m.name ≠ "" ∧ m.description ≠ "" ∧ m.version ≠ "" ∧ m.url ≠ "" ∧ m.capabilities ≠ [] ∧
        m.contractVersions.contains Facts.contractVersion = true) := by
-  have hf := facts_validate_checks
-  simp only [Bool.and_eq_true, List.all_eq_true, List.contains_iff_mem] at hf
-  obtain ⟨hsup, hsub⟩ := hf
   unfold validateErr
-  rw [List.find?_eq_none]
   constructor
   · intro h
-    have e1 := h _ (hsup "metadata.Name==\"\"" (by simp [expectedChecks]))
-    have e2 := h _ (hsup "metadata.Description==\"\"" (by simp [expectedChecks]))
-    have e3 := h _ (hsup "metadata.Version==\"\"" (by simp [expectedChecks]))
-    have e4 := h _ (hsup "metadata.URL==\"\"" (by simp [expectedChecks]))
-    have e5 := h _ (hsup "len(metadata.Capabilities)==0" (by simp [expectedChecks]))
-    have e7 := h _ (hsup "!slices.Contains(metadata.SupportedContractVersions,plugin.ContractVersion)"
-      (by simp [expectedChecks]))
-    simp [checkFires] at e1 e2 e3 e4 e5 e7
-    exact ⟨e1, e2, e3, e4, by simpa [List.isEmpty_iff] using e5, by simpa using e7⟩
-  · intro ⟨h1, h2, h3, h4, h5, h7⟩ c hc
+    (repeat' split at h) <;> simp_all [List.isEmpty_iff]
+  · intro ⟨h1, h2, h3, h4, h5, h7⟩
     have h6 : m.contractVersions ≠ [] := by
       intro h; simp [h] at h7
-    have h7' : Facts.contractVersion ∈ m.contractVersions := by simpa using h7
-    have hc' := hsub c hc
-    simp only [expectedChecks, List.mem_cons, List.not_mem_nil, or_false] at hc'
-    rcases hc' with rfl | rfl | rfl | rfl | rfl | rfl | rfl <;>
-      simp [checkFires, h1, h2, h3, h4, h5, h6, h7', List.isEmpty_iff]
+    simp_all [List.isEmpty_iff]
 
 /-! ### (ii) the decision of `run` -/
 
@@ -759,4 +733,265 @@ def longError : Input :=
 
 example : (run longError).result = .pluginError ∧ (run longError).code = "TIMEOUT" := by decide
 
+/-! ### tie to the translated source (docs/TIE_BRIEF.md) -/
+
+/-- the model's `decide_` is the composition of the two decision functions the source is tied to -/
+theorem decide_eq_decisions (cfg : ExecCfg) (i : Input) (w : WaitOut) :
+    decide_ cfg i w =
+      (let r := runDecision (execFailed cfg i w) (seenStderrEmpty cfg i) (seenStderrCode cfg i) (decodes i.stdout)
+       if r.1 == .ok && i.command == .getMetadata then metadataDecision (seenMeta i) i.pluginName else r) := by
+  cases hf : execFailed cfg i w with
+  | true =>
+    rw [error_mapping cfg i w hf]
+    simp only [runDecision, seenStderrEmpty, seenStderrCode, if_true]
+    rcases Bool.eq_false_or_eq_true i.executable with he | he <;>
+      rcases Bool.eq_false_or_eq_true (over cfg.stderrLimit (effErrSize i)) with ho | ho <;>
+      rcases Bool.eq_false_or_eq_true (errorObjectComplete i) with hcpl | hcpl <;>
+      by_cases h1 : i.stderr = .empty <;> by_cases h2 : i.stderr = .errorObject <;>
+      simp_all
+  | false =>
+    unfold decide_
+    unfold execFailed at hf
+    simp only [hf, Bool.false_eq_true, if_false, runDecision, metadataDecision]
+    cases hd : decodes i.stdout <;> cases hc : (i.command == Command.getMetadata) <;> simp
+
+namespace Tie
+open NotationModel.Src
+
+/-! #### `(*LimitedWriter).Write` (internal/io/limitedwriter.go) -/
+
+/-- the slice the underlying writer is handed -/
+def handed (l : io.LimitedWriter) (p : List UInt8) : List UInt8 :=
+  if (p.length : Int) > l.N then p.take l.N.toNat else p
+
+/-- one call of the translated `Write` as a step of the model: the length of `p`, and what the
+underlying writer (an oracle) answers when handed the possibly truncated slice -/
+def stepOf (l : io.LimitedWriter) (p : List UInt8) : WStep :=
+  { len := p.length, accept := (l.W.Write (handed l p)).1.toNat, fail := (l.W.Write (handed l p)).2.isSome }
+
+/-- the `io.Writer` contract the model assumes of the underlying writer: `0 <= n <= len(p)`, and a
+short count comes with an error or not - both allowed -/
+def Contract (W : io.Writer) : Prop := ∀ q, 0 ≤ (W.Write q).1 ∧ (W.Write q).1 ≤ (q.length : Int)
+
+/-- TIE: the Lean translation of `(*LimitedWriter).Write`, regenerated from internal/io/limitedwriter.go
+on every run, returns - for EVERY state of the writer, EVERY slice and EVERY answer of the
+underlying writer within the io.Writer contract - the count, the error and the new remaining
+budget `N` of the model's `lwWrite`. -/
+theorem source_Write_refines_model (l : io.LimitedWriter) (p : List UInt8) (hW : Contract l.W) :
+    io.LimitedWriter.Write l p =
+      (((lwWrite l.N (stepOf l p)).2.n : Int),
+       (match (lwWrite l.N (stepOf l p)).2.err with
+        | .ok => none
+        | .limitExceeded => some io.ErrLimitExceeded
+        | .underlying => (l.W.Write (handed l p)).2),
+       { l with N := (lwWrite l.N (stepOf l p)).1 }) := by
+  have hc := hW (handed l p)
+  unfold io.LimitedWriter.Write lwWrite stepOf
+  simp only [Id.run, GoLite.int64, GoLite.len, GoLite.sliceFrom_zero, GoLite.sliceFrom_zero', GoLite.sliceTo]
+  by_cases hN : l.N ≤ 0
+  · simp [hN, pure]
+  · have hpos : 0 < l.N := by omega
+    by_cases hlen : (p.length : Int) > l.N
+    · have hh : handed l p = p.take l.N.toNat := by simp [handed, hlen]
+      rw [hh] at hc
+      simp only [hh]
+      have hl : ((p.take l.N.toNat).length : Int) = l.N := by
+        simp only [List.length_take]; omega
+      rw [hl] at hc
+      cases ha : (l.W.Write (p.take l.N.toNat)) with
+      | mk n e =>
+        simp only [ha] at hc
+        cases e <;> simp [hN, hlen, ha, pure] <;> omega
+    · have hh : handed l p = p := by simp [handed, hlen]
+      rw [hh] at hc
+      simp only [hh]
+      cases ha : (l.W.Write p) with
+      | mk n e =>
+        simp only [ha] at hc
+        cases e <;> simp [hN, hlen, ha, pure] <;> omega
+
+/-- a sequence of `Write` calls through the translated method; the underlying writer is a value per
+call, so it may answer differently every time (it has state of its own) -/
+def srcRun : Int → List (io.Writer × List UInt8) → Int × List (Int × Option GoLite.Err)
+  | N, [] => (N, [])
+  | N, (W, p) :: r =>
+    ((srcRun (io.LimitedWriter.Write ⟨W, N⟩ p).2.2.N r).1,
+     ((io.LimitedWriter.Write ⟨W, N⟩ p).1, (io.LimitedWriter.Write ⟨W, N⟩ p).2.1) ::
+       (srcRun (io.LimitedWriter.Write ⟨W, N⟩ p).2.2.N r).2)
+
+/-- the model steps such a sequence amounts to -/
+def absRun : Int → List (io.Writer × List UInt8) → List WStep
+  | _, [] => []
+  | N, (W, p) :: r => stepOf ⟨W, N⟩ p :: absRun (lwWrite N (stepOf ⟨W, N⟩ p)).1 r
+
+/-- TIE, every write sequence: running the translated `Write` over any sequence of slices, against
+any underlying writers within the contract, gives call by call the counts of the model's `lwRun`
+and ends with the model's remaining budget. -/
+theorem source_Write_sequence_refines_model :
+    ∀ (steps : List (io.Writer × List UInt8)) (N : Int), (∀ s ∈ steps, Contract s.1) →
+      (srcRun N steps).1 = (lwRun N (absRun N steps)).1 ∧
+      (srcRun N steps).2.map (·.1) = (lwRun N (absRun N steps)).2.map (fun o => (o.n : Int)) ∧
+      (absRun N steps).map (·.len) = steps.map (·.2.length) := by
+  intro steps
+  induction steps with
+  | nil => intro N _; simp [srcRun, absRun, lwRun]
+  | cons s r ih =>
+    intro N h
+    obtain ⟨W, p⟩ := s
+    have hW : Contract W := h (W, p) (by simp)
+    have e := source_Write_refines_model ⟨W, N⟩ p hW
+    have hr := ih (lwWrite N (stepOf ⟨W, N⟩ p)).1 (fun s hs => h s (by simp [hs]))
+    simp only [srcRun, absRun, lwRun, e, List.map_cons]
+    refine ⟨hr.1, ?_, ?_⟩
+    · rw [hr.2.1]
+    · rw [hr.2.2]; simp [stepOf]
+
+/-- hence "bounded output" for the translated code itself: whatever is written through the translated
+`Write`, in any number of calls, the underlying writers are handed at most the limit in total, the
+remaining budget accounts for every byte and never becomes negative for a non-negative limit -/
+theorem source_writer_never_exceeds (steps : List (io.Writer × List UInt8)) (N : Int)
+    (h : ∀ s ∈ steps, Contract s.1) :
+    ((srcRun N steps).2.map (·.1)).sum ≤ (N.toNat : Int) ∧
+    (srcRun N steps).1 = N - ((srcRun N steps).2.map (·.1)).sum ∧
+    (0 ≤ N → 0 ≤ (srcRun N steps).1) := by
+  obtain ⟨h1, h2, _⟩ := source_Write_sequence_refines_model steps N h
+  obtain ⟨w1, w2, _, w4⟩ := writer_never_exceeds N (absRun N steps)
+  have hs : ((lwRun N (absRun N steps)).2.map (fun o => (o.n : Int))).sum = ((total (lwRun N (absRun N steps)).2 : Nat) : Int) := by
+    generalize (lwRun N (absRun N steps)).2 = os
+    induction os with
+    | nil => simp [total]
+    | cons o os ih => simp only [List.map_cons, List.sum_cons, total] at ih ⊢; omega
+  rw [h1, h2, hs]
+  exact ⟨by omega, w2, w4⟩
+
+/-- non-vacuity: the translated `Write` run on a budget of 10 with writes of 6, 6, 6 bytes into a
+writer that takes everything -/
+example : srcRun 10 [(⟨fun q => (q.length, none)⟩, List.replicate 6 0), (⟨fun q => (q.length, none)⟩, List.replicate 6 0),
+      (⟨fun q => (q.length, none)⟩, List.replicate 6 0)] =
+    (0, [(6, none), (4, none), (0, some io.ErrLimitExceeded)]) := by decide
+
+/-! #### `validate` and `(*CLIPlugin).GetMetadata` (plugin/plugin.go) -/
+
+/-! comparisons the Go code may spell in several ways (`len(x) == 0`, `0 == len(x)`, `len(x) < 1`,
+`"" == s`): normal forms for the proofs below, which never quote the translated text -/
+theorem intLen_eq_zero {α : Type} (xs : List α) : ((xs.length : Int) = 0) = (xs = []) := by
+  apply propext; constructor
+  · intro h; exact List.eq_nil_of_length_eq_zero (by omega)
+  · intro h; simp [h]
+theorem zero_eq_intLen {α : Type} (xs : List α) : ((0 : Int) = (xs.length : Int)) = (xs = []) := by
+  rw [← intLen_eq_zero]; exact propext eq_comm
+theorem intLen_lt_one {α : Type} (xs : List α) : ((xs.length : Int) < 1) = (xs = []) := by
+  rw [← intLen_eq_zero]; apply propext; omega
+theorem intLen_le_zero {α : Type} (xs : List α) : ((xs.length : Int) ≤ 0) = (xs = []) := by
+  rw [← intLen_eq_zero]; apply propext; omega
+theorem intLen_pos {α : Type} (xs : List α) : ((0 : Int) < (xs.length : Int)) = (xs ≠ []) := by
+  rw [ne_eq, ← intLen_eq_zero]; apply propext; omega
+theorem one_le_intLen {α : Type} (xs : List α) : ((1 : Int) ≤ (xs.length : Int)) = (xs ≠ []) := by
+  rw [ne_eq, ← intLen_eq_zero]; apply propext; omega
+theorem intLen_ne_zero {α : Type} (xs : List α) : ((xs.length : Int) ≠ 0) = (xs ≠ []) := by
+  rw [ne_eq, ne_eq, intLen_eq_zero]
+theorem empty_eq_str (s : String) : ("" = s) = (s = "") := propext eq_comm
+
+/-- the decoded metadata as the model sees it -/
+def toMeta (m : plugin.GetMetadataResponse) : Meta :=
+  ⟨m.Name, m.Description, m.Version, m.URL, m.Capabilities, m.SupportedContractVersions⟩
+
+/-- TIE: the Lean translation of `validate`, regenerated from plugin/plugin.go on every run, accepts -
+for EVERY metadata value - exactly what the model's `validateErr` accepts … -/
+theorem source_validate_refines_model (m : plugin.GetMetadataResponse) :
+    (plugin.validate m).isNone = (validateErr (toMeta m)).isNone := by
+  rw [Bool.eq_iff_iff]
+  simp only [Option.isNone_iff_eq_none, metadata_ok_iff, toMeta]
+  by_cases h1 : m.Name = "" <;> by_cases h2 : m.Description = "" <;> by_cases h3 : m.Version = "" <;>
+  by_cases h4 : m.URL = "" <;> by_cases h5 : m.Capabilities = [] <;>
+  by_cases h6 : m.SupportedContractVersions = [] <;>
+  by_cases h7 : Facts.contractVersion ∈ m.SupportedContractVersions <;>
+  simp_all [plugin.validate, Id.run, GoLite.len, GoLite.contains, plugin.ContractVersion, pure, empty_eq_str,
+    intLen_eq_zero, zero_eq_intLen, intLen_lt_one, intLen_le_zero, intLen_pos, one_le_intLen, intLen_ne_zero]
+
+/-- … and what it rejects it rejects with a plain error -/
+theorem source_validate_error (m : plugin.GetMetadataResponse) (h : plugin.validate m ≠ none) :
+    plugin.validate m = some ⟨"error"⟩ := by
+  revert h
+  unfold plugin.validate
+  simp only [Id.run]
+  (repeat' split) <;> simp [pure, GoLite.errorf]
+
+/-- TIE: the Lean translation of `(*CLIPlugin).GetMetadata` - for EVERY answer of `run` (an oracle:
+the new value of `metadata` and an error) - hands on the error of `run`, and otherwise returns what
+the model's `metadataDecision` says: the metadata itself if it validates and is named like the plugin,
+a `PluginMalformedError` if it does not validate, a plain error if the name differs - in this order. -/
+theorem source_GetMetadata_refines_model
+    (runO : String → String → plugin.GetMetadataRequest → plugin.GetMetadataResponse →
+      plugin.GetMetadataResponse × Option GoLite.Err) (p : plugin.CLIPlugin) (req : plugin.GetMetadataRequest) :
+    plugin.CLIPlugin.GetMetadata runO p req =
+      (match (runO p.name p.path req default).2 with
+       | some e => (none, some e)
+       | none =>
+         match (metadataDecision (toMeta (runO p.name p.path req default).1) p.name).1 with
+         | .ok => (some (runO p.name p.path req default).1, none)
+         | .malformedPluginError => (none, some ⟨"PluginMalformedError"⟩)
+         | _ => (none, some ⟨"error"⟩)) := by
+  have hv := source_validate_refines_model (runO p.name p.path req default).1
+  cases ha : runO p.name p.path req default with
+  | mk md e =>
+    simp only [ha] at hv
+    have hsym : (p.name = md.Name) = (md.Name = p.name) := propext eq_comm
+    cases e with
+    | some e => simp [plugin.CLIPlugin.GetMetadata, Id.run, pure, ha]
+    | none =>
+      by_cases hn : md.Name = p.name <;> cases hp : plugin.validate md <;> cases hm : validateErr (toMeta md) <;>
+        simp_all [plugin.CLIPlugin.GetMetadata, metadataDecision, Id.run, pure, toMeta, GoLite.errT, GoLite.errorf]
+
+/-- non-vacuity: the translated `GetMetadata` on a plugin `foo` whose process reports the name `bar` -/
+example : plugin.CLIPlugin.GetMetadata
+    (fun _ _ _ _ => (⟨"bar", "d", "1.0.0", "u", ["1.0"], ["SIGNATURE_GENERATOR.RAW"]⟩, none))
+    ⟨"foo", "/plugins/foo/notation-foo"⟩ default = (none, some ⟨"error"⟩) := by decide
+
+/-! #### `run` after `executor.Output` (plugin/plugin.go) -/
+
+/-- result classes as error kinds -/
+def encode : Res × String → Option GoLite.Err
+  | (.ok, _) => none
+  | (.pluginError, code) => some ⟨"RequestError:" ++ code⟩
+  | (.executableFileError, _) => some ⟨"PluginExecutableFileError"⟩
+  | (.malformedPluginError, _) => some ⟨"PluginMalformedError"⟩
+  | (.other, _) => some ⟨"error"⟩
+
+/-- TIE: the Lean translation of the statements of `run` after `executor.Output`, regenerated from
+plugin/plugin.go on every run, returns - for EVERY error value, EVERY stdout and stderr and EVERY
+behaviour of `json.Unmarshal` on the two types decoded into (oracles) - the error the model's
+`runDecision` prescribes: no stderr -> executable-file error; stderr that decodes -> the plugin's own
+`RequestError` with its code; stderr that does not -> malformed-plugin error; and after a successful
+process a malformed-plugin error iff stdout does not decode. The caller's response object is the
+decoded one exactly when the process succeeded. -/
+theorem source_run_refines_model {Resp : Type} [json.Target proto.RequestError] [json.Target Resp]
+    (err : Option GoLite.Err) (resp : Resp) (stdout stderr : List UInt8) :
+    (plugin.runDecision err resp stdout stderr).1 =
+      encode (runDecision err.isSome (stderr.length == 0)
+        (match (json.Unmarshal stderr (default : proto.RequestError)).2 with
+         | none => some (json.Unmarshal stderr (default : proto.RequestError)).1.Code
+         | some _ => none)
+        (json.Unmarshal stdout resp).2.isNone) ∧
+    (plugin.runDecision err resp stdout stderr).2.2 =
+      (if err.isSome then resp else (json.Unmarshal stdout resp).1) := by
+  cases err with
+  | some e =>
+    cases hd : (json.Unmarshal stderr (default : proto.RequestError)) with
+    | mk re je =>
+      by_cases hl : stderr = [] <;> cases je <;>
+        simp_all [plugin.runDecision, runDecision, Id.run, GoLite.len, pure, encode, GoLite.errT, proto.RequestError.toErr,
+          intLen_eq_zero, zero_eq_intLen, intLen_lt_one, intLen_le_zero, intLen_pos, one_le_intLen, intLen_ne_zero]
+  | none =>
+    cases hd : (json.Unmarshal stdout resp) with
+    | mk r je =>
+      cases je <;> simp_all [plugin.runDecision, runDecision, Id.run, GoLite.len, pure, encode, GoLite.errT]
+
+/-- non-vacuity: a failed process whose stderr decodes to an ACCESS_DENIED error object -/
+example :
+    let _ : json.Target proto.RequestError := ⟨fun _ _ => (⟨"ACCESS_DENIED", "no", none⟩, none)⟩
+    let _ : json.Target Unit := ⟨fun _ u => (u, none)⟩
+    (plugin.runDecision (some ⟨"ExitError"⟩) () [] [123, 125]).1 = some ⟨"RequestError:ACCESS_DENIED"⟩ := by decide
+
+end Tie
 end NotationModel.C17
